@@ -883,8 +883,8 @@ def _choice_case(draw):
     tidy = draw(st.sampled_from([True, True, True, True, False]))
     for i in range(n):
         pool = DAG_ROOTS + list(range(i)) * 3
-        nb = draw(st.sampled_from([1, 1, 2, 2, 3]))
-        bases = draw(st.lists(st.sampled_from(pool), min_size=1, max_size=nb, unique=True))
+        nb = draw(st.sampled_from([1, 2, 2, 3, 3]))
+        bases = draw(st.lists(st.sampled_from(pool), min_size=min(nb, 2), max_size=nb, unique=True))
         if tidy:
             # keep Python happy most of the time: no base that is an ancestor of another base, and never the
             # HTTPError and HTTPStatus families together (instance lay-out conflict); untidy cases exercise
@@ -1135,7 +1135,8 @@ def run_render_case(case):
         raise Violation('wrong_content_length', '%s\n  got %s' % (ctx, got.brief()))
     for name, present in (('description', err['description'] is not None), ('code', err['code'] is not None),
                           ('link', err['href'] is not None), ('title', err['title'] is not None)):
-        labels.append('%s:%s' % (name, 'given' if present else 'absent'))
+        if present:
+            labels.append(name + ':given')
     escaping = any(needs_escaping(t) for t in texts)
     if escaping:
         labels.append('needs_escaping')
